@@ -197,10 +197,10 @@ theorem cfg_throw_transparent (orc : Src → Slot → Bool) (rk : RK) (st : GSta
 
 /-- `__next__` is `send(None)`, `close` delegates, `__iter__` returns the wrapper, other attributes are the generator's;
     the wrapper wraps the generator it is given and keeps no "initialized" flag of its own (the generator's state
-    decides); the checks share the call's TypeVar bindings -/
+    decides); the checks share the call's TypeVar bindings and its context (the names forward references refer to) -/
 theorem cfg_protocol :
     nextIsSendNone = true ∧ closeDelegates = true ∧ iterReturnsSelf = true ∧ getattrDelegates = true ∧
-    hasInitFlag = false ∧ wrapsGivenGenerator = true ∧ checksPassTypeVars = true := by
+    hasInitFlag = false ∧ wrapsGivenGenerator = true ∧ checksPassTypeVars = true ∧ checksPassContext = true := by
   decide
 
 /-- `_set_and_check_return_types`: exactly `typing.Generator / Iterable / Iterator` are accepted; one type argument fills
